@@ -259,6 +259,9 @@ def run(ck):
                     return rep     # the real code also misclassifies this pattern
         return None
     ck.lean_violations(res, search)
+    if ck.tier == "thorough" and res.ok:
+        for m_, log in ck.leanchecker(PROPS):
+            ck.violation("leanchecker:" + m_, "leanchecker rejects " + m_, {"log": log}, False)
 
     ck.assumptions += [
         "T3: harness/C16/t3.py (~600 lines) translates the preprocessed function bodies correctly for the subset it accepts "
